@@ -185,7 +185,7 @@ PROPS = {
         'level': 'proof',
         'technique': 'modular Verus proof of the real packet builders of net/ipv4.rs and net/ipv6.rs against the imported contracts of the packet codec (pkt_views, pkt_checksum); Kani harnesses on the real dispatch functions with a capturing socket',
         'level_text': 'make_ipv4_packet is proved to produce, for every payload and configuration, a header with version 4, IHL 5, the configured TOS, total length 20+payload in network order, the given identification, DF set / offset 0, the probe ttl, the protocol number, source and destination addresses and the payload at octet 20 (RFC 791 positions); make_udp_packet (v4 and v6): ports, length = 8+payload, payload, checksum = RFC 1071 over pseudo header and datagram; make_echo_request_icmp_packet (v4 and v6): type 8/128, code 0, identifier, sequence, pattern payload, checksum; payload-size helpers make the total size equal the configured packet size. All slice bounds of the builders are discharged at their call preconditions. The dispatch functions themselves - dispatch_icmp_probe, dispatch_udp_probe and dispatch_udp_probe_raw of both address families - are proved for EVERY packet size and configuration against RFC 791/768/792/4443 oracles over a ghost log of what is handed to Socket::send_to (datagram bytes, remote address, IPv6 hop limit): out-of-range packet sizes are rejected before anything is sent; otherwise exactly one datagram with the probe ttl / hop limit, identification, ports, the configured payload (classic), the marker + length-encoded sequence (Dublin/IPv6, under the sequence bound proved in unit core_strategy) or the sequence in the checksum field (Paris) is sent to the target.',
-        'level_note': 'The codec is used through contracts proved in units pkt_views / pkt_checksum (imported, not re-verified). Trusted in the dispatch proofs: the ghost log of the Socket trait (send_to / set_unicast_hops_v6 declarations checked against the real trait), sock_send_mapped (send_to followed by the ErrorMapper closures: the error mapping is the complete Kani harness k_error_mapper_tables), first_word_be / put_magic / pattern_array / zero_array shims, the bitflags model of Flags. That the Paris datagram still verifies after the checksum/payload swap is the complete Kani harness k4_dispatch_udp_paris (C13); the Kani dispatch harnesses with concrete sizes remain as cross-checks of the Verus proofs through an independent back end. NOT verified: the unprivileged paths (dispatch_udp_probe_non_raw: fresh OS socket, argument plumbing) and dispatch_tcp_probe; the IPv4 header checksum is the kernel\'s.',
+        'level_note': 'The codec is used through contracts proved in units pkt_views / pkt_checksum (imported, not re-verified). Trusted in the dispatch proofs: the ghost log of the Socket trait (send_to / set_unicast_hops_v6 declarations checked against the real trait), sock_send_mapped (send_to followed by the ErrorMapper closures: the error mapping is the complete Kani harness k_error_mapper_tables), first_word_be / put_magic / pattern_array / zero_array shims, the bitflags model of Flags. That the Paris datagram still verifies after the checksum/payload swap is the complete Kani harness k4_dispatch_udp_paris (C13); the Kani dispatch harnesses with concrete sizes remain as cross-checks of the Verus proofs through an independent back end. The unprivileged UDP paths (dispatch_udp_probe_non_raw) and dispatch_tcp_probe use sockets created inside the call: their set-up (bind to the probe\'s source port, ttl / tos / hop limit, connect or send to the destination port, exactly the configured payload) is proved against ghost set-up state of the Socket trait (bind / connect through the sock_bind_mapped / sock_connect_mapped shims). Outside: what the operating system does with those sockets (TCP SYN contents, kernel-built IP/UDP headers, the IPv4 header checksum).',
         'units': ['core_net_build', 'pkt_views', 'pkt_checksum'],
         'kani': {'quick': ['k4_dispatch_icmp_28'],
                  'thorough': ['k4_dispatch_icmp_28', 'k4_dispatch_icmp_33', 'k4_dispatch_udp_paris']},
